@@ -1,5 +1,7 @@
 import ComposeVerif.Lemmas.TravInvS
 import ComposeVerif.Lemmas.TravLive
+import ComposeVerif.Neg.C13
+import ComposeVerif.Lemmas.AuditCmd  -- makes sure the audit command is built with this module (the check does not build it itself)
 /-!
 # C13 — dependency-ordered traversal: once each, after dependencies, bounded, live
 
@@ -107,16 +109,6 @@ theorem deadlock_free {g : Graph} {lim : Option Nat} (hg : GraphOK g) (hl : ∀ 
   let hI := reach_inv hg h
   deadlock_free_inv g hg lim hl s hI.a hI.b
 
-theorem reach_runL {g : Graph} {lim : Option Nat} {s s' : St} (h : Reach g lim s) (ls : List Label)
-    (hr : runL g lim s ls = some s') : Reach g lim s' := by
-  induction ls generalizing s with
-  | nil => simp [runL] at hr; subst hr; exact h
-  | cons l r ih =>
-    simp only [runL] at hr
-    cases hs : step? g lim s l with
-    | none => simp [hs] at hr
-    | some s1 => simp [hs] at hr; exact ih (.step h hs) hr
-
 /-- **terminates**: every schedule is finite — a run of `k` steps from a reachable state lowers the measure `mu`
 by at least `k`, so no run from the initial state is longer than `mu g (init g)`. -/
 theorem terminates {g : Graph} {lim : Option Nat} (hg : GraphOK g) {s s' : St} (h : Reach g lim s)
@@ -209,5 +201,32 @@ example : GraphOK diamond where
   post_mem := by decide
   pre_post := by decide
   rank := ⟨fun v => v, by decide⟩
+
+/-- a full schedule of the diamond under `WithMaxConcurrency(1)`: 0, then 2 and 1 one after the other, then 3 -/
+def diamondRun : List Label :=
+  [.schedNext .M 0, .ready .M, .enter .M, .spawn .M, .schedEnd .M,
+   .wBegin 0, .wReturn 0 false, .wDone 0, .wSend 0, .wExit 0,
+   .cRecv, .schedNext .C 2, .ready .C, .enter .C, .spawn .C, .schedNext .C 1, .ready .C, .enter .C,
+   .wBegin 2, .wReturn 2 false, .wDone 2, .wSend 2, .wExit 2, .spawn .C, .schedEnd .C,
+   .cRecv, .schedNext .C 3, .ready .C, .schedEnd .C,
+   .wBegin 1, .wReturn 1 false, .wDone 1, .wSend 1, .wExit 1,
+   .cRecv, .schedNext .C 3, .ready .C, .enter .C, .spawn .C, .schedEnd .C,
+   .wBegin 3, .wReturn 3 false, .wDone 3, .wSend 3, .wExit 3, .cRecv]
+
+/-- the hypotheses of `exactly_once_on_success` / `terminal_complete` are satisfiable: the run above is a schedule of
+the model that ends terminal without error, having visited 0, 2, 1, 3 in an admissible order -/
+example : (runL diamond (some 1) (init diamond) diamondRun).map
+    (fun s => (decide (terminal s), s.firstErr, s.cancelled, (starts s.log).reverse, (finishes s.log).reverse))
+    = some (true, none, false, [0, 2, 1, 3], [0, 2, 1, 3]) := by decide
+
+/-- … and a failing visitor: 0 fails, `walk` still terminates, returns that error, and 1, 2, 3 are never visited -/
+example : (runL diamond none (init diamond)
+    [.schedNext .M 0, .ready .M, .enter .M, .spawn .M, .schedEnd .M,
+     .wBegin 0, .wReturn 0 true, .wDone 0, .wSend 0, .wExit 0, .cCtxDone]).map
+    (fun s => (decide (terminal s), s.firstErr, (starts s.log).reverse))
+    = some (true, some 0, [0]) := by decide
+
+/-- the measure of `terminates` on the diamond: no schedule has more than 53 steps (the complete run above has 46) -/
+example : mu diamond (init diamond) = 53 ∧ diamondRun.length = 46 := by decide
 
 end CV.Trav
